@@ -292,6 +292,9 @@ func (w *Worker) external(fn *ssa.Function, args []Value) (Value, bool) {
 	case "os":
 		panic(unsupported("os function %s", name))
 	case "reflect":
+		if r, ok := w.reflectShim(fn, name, args); ok {
+			return r, true
+		}
 		if fn.Name() == "TypeOf" && fn.Signature.Recv() == nil {
 			iv := args[0].(IfaceV)
 			if iv.T != nil {
@@ -970,6 +973,171 @@ func (w *Worker) randExternal(fn *ssa.Function, args []Value) (Value, bool) {
 			w.assume(tt.And(tt.BVSle(tt.BV(64, 0), j), tt.BVSle(j, tt.BV(64, uint64(i)))))
 			w.callValue(args[1], []Value{tt.BV(64, uint64(i)), j})
 		}
+		return nil, true
+	}
+	return nil, false
+}
+
+// ---- minimal reflect shim (enough for gonum's "safe" map iterators) ----
+
+type rvHolder struct {
+	t    types.Type
+	v    Value  // the value (when not addressable)
+	addr *Value // addressable location, if any
+}
+
+type mapIterState struct {
+	m    *MapV
+	keys []string
+	pos  int // index of the current entry, -1 before the first Next
+}
+
+func (w *Worker) mkReflectValue(fn *ssa.Function, h *rvHolder) Value {
+	var vt types.Type
+	res := fn.Signature.Results()
+	for i := 0; i < res.Len(); i++ {
+		if strings.HasSuffix(res.At(i).Type().String(), "reflect.Value") {
+			vt = res.At(i).Type()
+		}
+	}
+	if vt == nil {
+		panic(unsupported("reflect shim: no Value result in %s", fn.String()))
+	}
+	sv := w.zero(vt).(StructV)
+	cell := new(Value)
+	*cell = h
+	sv[1] = Ptr{Slot: cell}
+	return sv
+}
+
+func (w *Worker) rvOf(v Value) *rvHolder {
+	sv, ok := v.(StructV)
+	if !ok || len(sv) < 2 {
+		panic(unsupported("reflect shim: not a reflect.Value"))
+	}
+	p, ok := sv[1].(Ptr)
+	if !ok || p.Slot == nil {
+		panic(unsupported("reflect shim: zero reflect.Value"))
+	}
+	h, ok := (*p.Slot).(*rvHolder)
+	if !ok {
+		panic(unsupported("reflect shim: foreign reflect.Value"))
+	}
+	return h
+}
+
+func (h *rvHolder) get() Value {
+	if h.addr != nil {
+		return copyVal(*h.addr)
+	}
+	return h.v
+}
+
+func (w *Worker) reflectShim(fn *ssa.Function, name string, args []Value) (Value, bool) {
+	tt := w.tt
+	if w.mapIters == nil {
+		w.mapIters = map[*Value]*mapIterState{}
+	}
+	note := func() { w.stats.Stubs["reflect shim: "+name]++ }
+	switch name {
+	case "reflect.ValueOf":
+		iv := args[0].(IfaceV)
+		if iv.T == nil {
+			return nil, false
+		}
+		note()
+		return w.mkReflectValue(fn, &rvHolder{t: iv.T, v: iv.V}), true
+	case "(reflect.Value).Elem":
+		h := w.rvOf(args[0])
+		pt, ok := h.t.Underlying().(*types.Pointer)
+		if !ok {
+			return nil, false
+		}
+		p := h.get().(Ptr)
+		if p.IsNil() {
+			return nil, false
+		}
+		note()
+		return w.mkReflectValue(fn, &rvHolder{t: pt.Elem(), addr: p.Slot}), true
+	case "(reflect.Value).Int":
+		h := w.rvOf(args[0])
+		t, ok := h.get().(*Term)
+		if !ok || t.Sort.K != SBV {
+			return nil, false
+		}
+		note()
+		return tt.BVResize(t, 64, true), true
+	case "(reflect.Value).Len":
+		h := w.rvOf(args[0])
+		switch x := h.get().(type) {
+		case *MapV:
+			if x == nil {
+				return tt.BV(64, 0), true
+			}
+			return tt.BV(64, uint64(len(x.m))), true
+		case SliceV:
+			return x.Len, true
+		}
+		return nil, false
+	case "(*reflect.MapIter).Reset":
+		p := args[0].(Ptr)
+		h := w.rvOf(args[1])
+		m, ok := h.get().(*MapV)
+		if !ok {
+			return nil, false
+		}
+		note()
+		st := &mapIterState{m: m, pos: -1}
+		if m != nil {
+			st.keys = append([]string(nil), m.keys...)
+		}
+		w.mapIters[p.Slot] = st
+		return nil, true
+	case "(*reflect.MapIter).Next":
+		p := args[0].(Ptr)
+		st := w.mapIters[p.Slot]
+		if st == nil {
+			panic(unsupported("reflect shim: MapIter.Next before Reset"))
+		}
+		for st.pos+1 < len(st.keys) {
+			st.pos++
+			if _, ok := st.m.get(st.keys[st.pos]); ok {
+				return tt.Bool(true), true
+			}
+		}
+		st.pos = len(st.keys)
+		return tt.Bool(false), true
+	case "(*reflect.MapIter).Key", "(*reflect.MapIter).Value":
+		p := args[0].(Ptr)
+		st := w.mapIters[p.Slot]
+		if st == nil || st.pos < 0 || st.pos >= len(st.keys) {
+			panic(unsupported("reflect shim: MapIter.Key/Value without a current entry"))
+		}
+		e, _ := st.m.get(st.keys[st.pos])
+		if strings.HasSuffix(name, "Key") {
+			return w.mkReflectValue(fn, &rvHolder{t: st.m.KeyT, v: e.K}), true
+		}
+		return w.mkReflectValue(fn, &rvHolder{t: st.m.ElemT, v: copyVal(e.V)}), true
+	case "(reflect.Value).SetIterValue", "(reflect.Value).SetIterKey":
+		h := w.rvOf(args[0])
+		p := args[1].(Ptr)
+		st := w.mapIters[p.Slot]
+		if h.addr == nil || st == nil || st.pos < 0 || st.pos >= len(st.keys) {
+			panic(unsupported("reflect shim: SetIterValue on a non-addressable value or idle iterator"))
+		}
+		e, _ := st.m.get(st.keys[st.pos])
+		v := e.V
+		vt := st.m.ElemT
+		if strings.HasSuffix(name, "Key") {
+			v, vt = e.K, st.m.KeyT
+		}
+		// assigning a concrete value to an interface-typed location wraps it
+		if _, isIface := h.t.Underlying().(*types.Interface); isIface {
+			if _, already := v.(IfaceV); !already {
+				v = IfaceV{T: vt, V: v}
+			}
+		}
+		w.storeInto(h.addr, copyVal(v))
 		return nil, true
 	}
 	return nil, false
